@@ -61,6 +61,57 @@ def lit_int(n):
         return -v if v is not None else None
     if n and n.get("k") == "cast":
         return lit_int(n["e"])
+    if n and n.get("k") == "path" and PROGRAM_CONSTS is not None and "def" in (n.get("res") or {}) and str(n["res"].get("dk", "")).startswith(("Const", "AssocConst")):
+        # a named integer constant of the workspace is the literal it was given (compiler-evaluated)
+        c = PROGRAM_CONSTS.get(n["res"]["def"])
+        if isinstance(c, dict):
+            c = c.get("v")
+        if isinstance(c, int) and not isinstance(c, bool):
+            return c
+    return None
+
+
+class ProgramConsts:
+    """named integer constants of the analysed program, by definition path (crates are loaded on demand)"""
+
+    def __init__(self, prog):
+        self.prog = prog
+        self.cache = {}
+
+    def get(self, path, default=None):
+        cr = (path or "").split("::")[0]
+        if cr not in self.cache:
+            tab = {}
+            for kind in ("lib", "bin"):
+                try:
+                    tab.update(self.prog.crate(cr, kind).consts())
+                except Exception:
+                    pass
+            self.cache[cr] = tab
+        return self.cache[cr].get(path, default)
+
+    def __bool__(self):
+        return True
+
+
+PROGRAM_CONSTS = None     # set by core.Ctx: the fallback table of const_int() and of the finite-domain evaluators
+
+
+def const_int(n, consts=None):
+    """integer value of a literal, a cast/negation of one, or a path to an integer `const` (consts: path -> fact or value)"""
+    n = strip(n) if n else n
+    v = lit_int(n)
+    if v is not None:
+        return v
+    if n and n.get("k") == "cast":
+        return const_int(n["e"], consts)
+    if consts is None:
+        consts = PROGRAM_CONSTS
+    if n and n.get("k") == "path" and consts is not None and "def" in (n.get("res") or {}):
+        c = consts.get(n["res"]["def"])
+        if isinstance(c, dict):
+            c = c.get("v")
+        return c if isinstance(c, int) and not isinstance(c, bool) else None
     return None
 
 
